@@ -234,6 +234,14 @@ def check_subclass_ctor(model, ci, res):
         res.add(_f('C05.super-init', init, 'kwargs not forwarded',
                    '%s.__init__ does not forward **%s to the base constructor' % (ci.name, kw), call))
         return
+    if kw is None:
+        # no **kwargs at all: an unknown (or a documented) parameter name given as a keyword is a TypeError raised by the
+        # call itself, before ExactSolver.__init__ can answer with the ValueError the property promises
+        res.add(_f('C05.super-init', init, 'constructor takes no keyword parameters',
+                   "%s.__init__ takes no **kwargs: constructing it with an unknown parameter name raises TypeError instead of the "
+                   "ValueError of ExactSolver.__init__ (and the parameters the class documents cannot be given)" % ci.name,
+                   init.node, construct='def __init__'))
+        return
     res.discharged += 1
 
 
